@@ -5,6 +5,7 @@ go 1.21
 require (
 	cosmossdk.io/api v0.7.5
 	cosmossdk.io/core v0.11.1
+	cosmossdk.io/errors v1.0.1
 	cosmossdk.io/log v1.4.1
 	cosmossdk.io/math v1.3.0
 	cosmossdk.io/store v1.1.1
@@ -18,6 +19,7 @@ require (
 	github.com/stretchr/testify v1.9.0
 	google.golang.org/protobuf v1.34.2
 	mods.irisnet.org/api v0.0.0-20241121030837-903540d1123f
+	mods.irisnet.org/e2e v0.0.0
 	mods.irisnet.org/modules/coinswap v0.0.0-20240725053619-ef0885f8eb03
 	mods.irisnet.org/modules/farm v0.0.0-20240725053619-ef0885f8eb03
 	mods.irisnet.org/modules/htlc v0.0.0-20240725053619-ef0885f8eb03
@@ -29,7 +31,6 @@ require (
 	mods.irisnet.org/modules/service v0.0.0-20241118093307-345265846e1d
 	mods.irisnet.org/modules/token v0.0.0-20240725053619-ef0885f8eb03
 	mods.irisnet.org/simapp v0.0.0-20241125071105-d76ae25d05d2
-	mods.irisnet.org/e2e v0.0.0
 )
 
 require (
@@ -39,7 +40,6 @@ require (
 	cloud.google.com/go/storage v1.38.0 // indirect
 	cosmossdk.io/collections v0.4.0 // indirect
 	cosmossdk.io/depinject v1.0.0 // indirect
-	cosmossdk.io/errors v1.0.1 // indirect
 	cosmossdk.io/x/nft v0.1.1 // indirect
 	cosmossdk.io/x/tx v0.13.5 // indirect
 	filippo.io/edwards25519 v1.0.0 // indirect
@@ -241,6 +241,7 @@ replace (
 	github.com/syndtr/goleveldb => github.com/syndtr/goleveldb v1.0.1-0.20210819022825-2ae1ddf74ef7
 	// TODO
 	mods.irisnet.org/api => /repo/api
+	mods.irisnet.org/e2e => /repo/e2e
 	mods.irisnet.org/modules/coinswap => /repo/modules/coinswap
 	mods.irisnet.org/modules/farm => /repo/modules/farm
 	mods.irisnet.org/modules/htlc => /repo/modules/htlc
@@ -252,5 +253,4 @@ replace (
 	mods.irisnet.org/modules/service => /repo/modules/service
 	mods.irisnet.org/modules/token => /repo/modules/token
 	mods.irisnet.org/simapp => /repo/simapp
-	mods.irisnet.org/e2e => /repo/e2e
 )
